@@ -1,6 +1,6 @@
 (* C03 — the model's inputs and outputs are exactly what was requested.  Property theorems only. *)
 From Coq Require Import List String NArith Arith Bool.
-From Spox Require Import Base IR Show Build Validate BuildFacts.
+From Spox Require Import Base IR Show Build Validate BuildFacts ScopeFacts IOFacts.
 Import ListNotations.
 
 (* Graph inputs are exactly the requested entries (same names, order and types); with drop_unused_inputs exactly those
@@ -35,6 +35,20 @@ Theorem C03_drop_used_arguments_are_listed :
                 forall v, In v (b_args b1) -> In v (map snd inputs).
 Proof. exact build_public_drop_used_listed. Qed.
 Print Assumptions C03_drop_used_arguments_are_listed.
+
+(* By construction (no validator involved): the graph inputs of a returned model are the requested arguments - all of them in the
+   given order, or with drop_unused_inputs a sub-sequence of them - and each carries the name it was listed under (the last one if a
+   Var is listed under several names).  Rests on: a binding Var -> name is never changed once made (Ext, through every compile of any
+   depth), Scope.update binds every named output under its name, the graph's value infos read the table. *)
+Theorem C03_inputs_are_the_requested_arguments_under_their_names :
+  forall p r m inputs outputs,
+  build_public p r = inl m -> all_vars (r_inputs r) = Some inputs -> all_vars (r_outputs r) = Some outputs ->
+  (forall kv, In kv inputs -> vidx (snd kv) < List.length (node_outs p (vnode (snd kv)))) ->
+  exists args, (r_drop r = false -> args = map snd inputs) /\ (forall a, In a args -> In a (map snd inputs)) /\
+    match mmain m with MGraph gi _ _ =>
+      Forall2 (fun a x => forall n, lookup var_eqb a (user_names inputs) = Some n -> fst x = n) args gi end.
+Proof. exact build_public_inputs. Qed.
+Print Assumptions C03_inputs_are_the_requested_arguments_under_their_names.
 
 (* Inputs or outputs that are not Vars raise TypeError; inputs that are not arguments raise TypeError; no outputs: ValueError. *)
 Theorem C03_bad_kinds_typeerror :
